@@ -62,11 +62,12 @@ ASSUMPTIONS = [
     'driver and run with the oracle only)',
     'the result of diffLines does not depend on the script that includes the library and calls it beyond GOK (theorem: any state, any heap, '
     'any configuration over hostDiff); the diff-hosts stream runs the real interpreter on a family of caller scripts',
-    'host configuration is outside the Lean model (no host objects, no globals beyond GOK, no histories): the diff-globals / diff-history / '
+    'host configuration is outside the Lean model (no host objects, no globals beyond GOK, no histories): the diff-globals / diff-history / diff-runs / '
     'diff-boundary / diff-prior-use streams check it on the implementation only (reconstruction oracle; the model answer for the same lines is '
     'compared as well). Not generated: globals that rebind the library functions diff.bare calls or the names it owns at top level '
     '(diffSentinel, diffTypes, diffRegexLineSplit, diffLines), and faults inside the library\'s own top-level code (an include cut off by the '
-    'statement limit leaves diffSentinel set and the rest undefined: reported, not part of the stream)',
+    'statement limit leaves diffSentinel set and the rest undefined: reported, not part of the stream; diff-runs generates such runs '
+    'but judges only later runs whose globals are new, cleared or stripped of the library\'s names)',
     'Gen/Includes records what parse_script / validate_script / lint_script of the working tree report for each include/*.bare; the '
     'decided theorem is about that table (regenerated on every run), not about a Lean model of the linter',
 ]
@@ -1484,6 +1485,218 @@ def stream_history(ctx, runner):
 
 
 
+# ---- run histories: whole runs (include + call) one after the other, options / globals objects re-used, copied or new ----------
+
+# The fault-then-continue histories above keep ONE options and ONE globals object.  A host that runs the same script several times
+# owns two objects per run - the execution options and the globals - and for each of them it may pass the object of an earlier run
+# again, a shallow copy of it (dict(options) shares every mutable value stored IN it) or a new one; every run includes <diff.bare>
+# itself and calls diffLines.  What one run leaves behind in either object (include guards, caches of fetched / executed includes,
+# counters) must not take the library away from a later run: "diffLines (include <diff.bare>) reconstructs both inputs" speaks about
+# every one of these runs.
+RUN_OPTIONS = ('same', 'fresh', 'copy')
+RUN_GLOBALS = ('same', 'fresh', 'copy', 'cleared', 'stripped')
+RUN_CORE = tuple((o, g) for o in ('same', 'fresh') for g in ('same', 'fresh', 'copy'))
+RUN_ALL = tuple((o, g) for o in RUN_OPTIONS for g in RUN_GLOBALS)
+LIB_DEFINED = LIB_GLOBALS + ('diffLines',)          # what `stripped` removes from a globals object: the library's own top-level names
+HOST_RUN_FN = 'function hostRun(a, b):\n    include <diff.bare>\n    return diffLines(a, b)\nendfunction\nreturn hostRun(%s, %s)' % (IN_L, IN_R)
+RUN_FORMS = {                                       # form of a good run -> the scripts executed one after the other with the run's options
+    'full': (SCRIPT_FULL_G,),
+    'split': (SCRIPT_INCLUDE, SCRIPT_CALL_G),
+    'twice': ('include <diff.bare>\ninclude <diff.bare>\n' + SCRIPT_CALL_G,),
+    'again-after-call': ('include <diff.bare>\nhostFirst = %s\ninclude <diff.bare>\n%s' % (EXPR_CALL_G, SCRIPT_CALL_G),),
+    'unittest': ('include <unittest.bare>\n' + SCRIPT_CALL_G,),                     # unittest.bare includes 'diff.bare' itself
+    'unittest-then': ('include <unittest.bare>\ninclude <diff.bare>\n' + SCRIPT_CALL_G,),
+    'in-function': (HOST_RUN_FN,),
+}
+# a failing (or odd) run in between: name -> (script, does the include statement complete before the fault?)
+RUN_FAULTS = {
+    'error-after-call': (SCRIPT_INCLUDE + '\nhostD = %s\nhostNoSuchFunction(hostD)' % EXPR_CALL_G, True),
+    'bad-args': (SCRIPT_INCLUDE + '\nreturn diffLines(5, null)', True),
+    'limit-in-caller': (SCRIPT_INCLUDE + '\nfunction hostLoop():\n    while true:\n        hostD = %s\n    endwhile\nendfunction\nhostLoop()' % EXPR_CALL_G, True),
+    'missing-include': (SCRIPT_INCLUDE + "\ninclude 'hostMissing.bare'", True),
+    'error-before-include': ('hostNoSuchFunction()\n' + SCRIPT_FULL_G, False),
+    'fetch-raises': (SCRIPT_FULL_G, False),
+    'fetch-null': (SCRIPT_FULL_G, False),
+    'fetch-garbage': (SCRIPT_FULL_G, False),
+    'limit-in-include': (SCRIPT_FULL_G, False),     # cut off by step['limit'] < the statements the include takes
+}
+FAILING_FETCH = {'fetch-raises': _host_raiser, 'fetch-null': lambda request: None, 'fetch-garbage': lambda request: 'function broken(:\n'}
+
+
+def include_statements(runner):
+    """the value of the statement counter after `include <diff.bare>` alone in new globals (6 on the pinned tree)"""
+    options = runner._options({}, 100000)  # pylint: disable=protected-access
+    try:
+        runner.runtime.execute_script(runner.script(SCRIPT_INCLUDE), options)
+    except Exception:  # pylint: disable=broad-except
+        return 6
+    count = options.get('statementCount')
+    return count if isinstance(count, int) and not isinstance(count, bool) and 2 <= count <= 1000 else 6
+
+
+def run_step(rng, i, opt, glo, k=None, form=None, pair=None):
+    """a good run as step i: objects taken from step k (default: the one before)"""
+    k = i - 1 if k is None else k
+    left, right = pair if pair is not None else small_pair(rng)
+    if i == 0:
+        opt = glo = 'fresh'
+    return {'op': 'run', 'options': [opt] if opt == 'fresh' else [opt, k], 'globals': [glo] if glo == 'fresh' else [glo, k],
+            'form': form or 'full', 'left': left, 'right': right}
+
+
+def fault_step(rng, i, opt, glo, fault, limits, k=None):
+    step = run_step(rng, i, opt, glo, k, pair=small_pair(rng))
+    step.update({'op': 'fault', 'fault': fault})
+    del step['form']
+    if fault == 'limit-in-include':
+        step['limit'] = rng.choice(limits)
+    return step
+
+
+def run_plans(ctx, rng, limits):
+    """-> [(family, steps)].  Exhaustive families (objects always taken from the run before): `pairs` / `triples` = every transition
+    of RUN_ALL between 2 / 3 runs, `quads` = every transition of RUN_CORE between 4 runs, `faulted` = run, failing run, run with every
+    RUN_CORE transition on both sides of every fault, `fault-first` = failing run, run, run likewise.  `random`: 2-4 good runs, objects taken from ANY earlier step, every form, a
+    failing run in a gap with probability 1/2 (also two in a row, also before the first good run)."""
+    plans = []
+    forms = sorted(RUN_FORMS)
+    for n, trans, family in ((2, RUN_ALL, 'pairs'), (3, RUN_ALL, 'triples'), (4, RUN_CORE, 'quads')):
+        for combo in itertools.product(trans, repeat=n - 1):
+            plans.append((family, [run_step(rng, 0, 'fresh', 'fresh')] + [run_step(rng, i + 1, o, g) for i, (o, g) in enumerate(combo)]))
+    for fault in sorted(RUN_FAULTS):
+        for (o1, g1), (o2, g2) in itertools.product(RUN_CORE, repeat=2):
+            plans.append(('faulted', [run_step(rng, 0, 'fresh', 'fresh'), fault_step(rng, 1, o1, g1, fault, limits), run_step(rng, 2, o2, g2)]))
+        for (o1, g1), (o2, g2) in itertools.product(RUN_CORE, repeat=2):
+            plans.append(('fault-first', [fault_step(rng, 0, 'fresh', 'fresh', fault, limits), run_step(rng, 1, o1, g1), run_step(rng, 2, o2, g2)]))
+    for _ in range(ctx.scale(250, 6000)):
+        steps = []
+        goods = rng.randint(2, 4)
+        done = 0
+        while done < goods:
+            i = len(steps)
+            o, g = rng.choice(RUN_ALL) if rng.random() < 0.5 else rng.choice(RUN_CORE)
+            k = rng.randrange(i) if i else None
+            if rng.random() < (0.15 if i == 0 or steps[-1]['op'] == 'fault' else 0.5):
+                steps.append(fault_step(rng, i, o, g, rng.choice(sorted(RUN_FAULTS)), limits, k))
+            else:
+                steps.append(run_step(rng, i, o, g, k, form=rng.choice(forms) if rng.random() < 0.6 else 'full'))
+                done += 1
+        plans.append(('random', steps))
+    return plans
+
+
+def run_runs(runner, steps):
+    """-> one entry per step: the canonical result of a JUDGED good run, else None.  Not judged: a good run in globals in which an
+    include was cut off by the statement limit before it had completed once (known finding F37: the guard of diff.bare is set before
+    its definitions are made), or in a copy of such globals; clearing / stripping the globals or taking new ones ends that."""
+    rt = runner.runtime
+    used = []                           # per step: (options object, globals object)
+    state = {}                          # id(globals object) -> 'loaded' (an include completed in it) | 'cut' (F37 history); objects kept alive in `used`
+    out = []
+    for step in steps:
+        how = step['options']
+        if how[0] == 'fresh':
+            options = runner._options(None, 100000)  # pylint: disable=protected-access
+        elif how[0] == 'same':
+            options = used[how[1]][0]
+        else:
+            options = dict(used[how[1]][0])
+        how = step['globals']
+        if how[0] == 'fresh':
+            glob = {}
+        elif how[0] == 'copy':
+            glob = dict(used[how[1]][1])
+            state[id(glob)] = state.get(id(used[how[1]][1]))
+        else:
+            glob = used[how[1]][1]
+            if how[0] == 'cleared':
+                glob.clear()
+                state[id(glob)] = None
+            elif how[0] == 'stripped':
+                for name in LIB_DEFINED:
+                    glob.pop(name, None)
+                state[id(glob)] = None
+        options['globals'] = glob
+        used.append((options, glob))
+        left, right = step['left'], step['right']
+        glob[IN_L], glob[IN_R] = clone(left), clone(right)
+        res = None
+        if step['op'] == 'run':
+            options['maxStatements'] = statement_budget(left, right) + 2000
+            try:
+                for text in RUN_FORMS[step['form']]:
+                    got = rt.execute_script(runner.script(text), options)
+                res = canon(got)
+            except Exception as exc:  # pylint: disable=broad-except
+                res = {'error': type(exc).__name__ + ': ' + str(exc)[:120]}
+            if state.get(id(glob)) == 'cut':
+                res = None
+            else:
+                state[id(glob)] = 'loaded'
+        else:
+            fault = step['fault']
+            text, completes = RUN_FAULTS[fault]
+            options['maxStatements'] = step.get('limit', 400 if fault == 'limit-in-caller' else 5000)
+            fetch_ok = options.get('fetchFn')
+            if fault in FAILING_FETCH:
+                options['fetchFn'] = FAILING_FETCH[fault]                       # a fetcher that fails for this run only
+            raised = False
+            try:
+                rt.execute_script(runner.script(text), options)
+            except Exception:  # pylint: disable=broad-except
+                raised = True
+            finally:
+                options['fetchFn'] = fetch_ok
+            if state.get(id(glob)) is None:
+                if completes or (fault == 'limit-in-include' and not raised):
+                    state[id(glob)] = 'loaded'
+                elif fault == 'limit-in-include':
+                    state[id(glob)] = 'cut'
+        out.append(res)
+    return out
+
+
+def stream_runs(ctx, runner):
+    total = include_statements(runner)
+    limits = sorted(set(range(1, total)))[:40]
+    st = ctx.stream('diff-runs', 'RUN HISTORIES: 2-4 consecutive execute_script runs that EACH include <diff.bare> and call diffLines; for every run '
+                    'after the first the host passes as OPTIONS the dict object of an earlier run again / a new dict / a shallow copy of an earlier '
+                    'one (dict(options): shares every mutable value stored in it) and as GLOBALS the object of an earlier run again / a new dict / a '
+                    'shallow copy / the same object cleared / the same object with the library\'s own top-level names removed. Exhaustive families '
+                    '(objects taken from the run before): all %d transitions between 2 and 3 runs, the %d {same, fresh} x {same, fresh, copy} '
+                    'transitions between 4 runs, and run / failing run / run as well as failing run / run / run with those %d transitions between the steps for each of %d kinds of '
+                    'failing run (runtime error after a call, non-text arguments, statement limit reached in the caller, a second include that '
+                    'fails, an error before the include, a fetcher that raises / returns null / returns text that does not parse - for that run '
+                    'only -, the include itself cut off by the statement limit at each of %s); random histories take the objects from ANY earlier '
+                    'step, put failing runs in any gap and vary the form of the run (include + call in one script or in two, the include twice, '
+                    'again after a call, <unittest.bare> which includes diff.bare itself, then <diff.bare>, the include inside the calling function). '
+                    'EVERY good run: model + reconstruction oracle; not judged: runs in globals (or a copy of globals) in which the include was cut '
+                    'off by the statement limit before it had completed once (known finding F37) - new / cleared / stripped globals after such a '
+                    'run are judged. Host objects and run histories are outside the Lean model: implementation-side oracle, the model compared '
+                    'on the lines of each run. Non-trivial = the run has an earlier run before it'
+                    % (len(RUN_ALL), len(RUN_CORE), len(RUN_CORE), len(RUN_FAULTS), limits))
+    rng = ctx.rng('diff-runs')
+    plans = run_plans(ctx, rng, limits)
+    models = models_for(ctx, [(s['left'], s['right']) for _, steps in plans for s in steps if s['op'] == 'run'])
+    for family, steps in plans:
+        results = run_runs(runner, steps)
+        fault = None
+        for i, (step, impl) in enumerate(zip(steps, results)):
+            if step['op'] == 'fault':
+                fault = step['fault']
+                continue
+            if impl is None:
+                continue
+            left, right = step['left'], step['right']
+            inp = {'left': left, 'right': right, 'mode': 'runs', 'steps': steps[:i + 1]}
+            st.case(steps[:i + 1], nontrivial=i > 0,
+                    tags=['family=' + family, 'options=' + step['options'][0], 'globals=' + step['globals'][0], 'form=' + step['form'],
+                          'run#%d' % (1 + sum(1 for s in steps[:i] if s['op'] == 'run')), 'after-fault=' + (fault or 'none'), blocks_tag(impl)])
+            report(ctx, 'diff-runs', inp, left, right, impl, models.get(_pair_key(left, right)))
+    st.exhaustive = False
+
+
+
 # ---- the caller has used the library on the very same values before (and edits what it got) ---------------------------------
 
 # "diffLines reconstructs both inputs" holds whatever the caller did BEFORE in the same run / process: in particular having passed the
@@ -2009,6 +2222,7 @@ def streams(ctx):
     # a runner each: a variant that overruns its statement budget under one kind of host configuration must not switch the others off
     stream_globals(ctx, HostRunner())
     stream_history(ctx, HostRunner())
+    stream_runs(ctx, HostRunner())
     stream_boundary(ctx, HostRunner())
     stream_prior_use(ctx, HostRunner())
     stream_cli_path(ctx, runner, ctx.scale(3, 4))
@@ -2103,6 +2317,8 @@ def replay_host(inp):
         impl = runner.polluted_sequence([tuple(c) for c in inp['calls']], inp['names'])[-1]
     elif mode == 'history':
         impl = run_history(runner, inp['steps'])[-1]
+    elif mode == 'runs':
+        impl = run_runs(runner, inp['steps'])[-1]
     elif mode == 'prior-use':
         if inp['kind'] == 'script':
             impl = run_prior_script(runner, inp['script'], left, right)[inp['call']]
@@ -2124,7 +2340,7 @@ def replay(witness):
         rows = [r for r in include_facts() if r['name'] == inp['include']]
         return not rows or include_bad(rows[0])
     mode = inp.get('mode')
-    if mode in ('globals', 'globals-sequence', 'history', 'boundary', 'fresh-process', 'prior-use'):
+    if mode in ('globals', 'globals-sequence', 'history', 'runs', 'boundary', 'fresh-process', 'prior-use'):
         return replay_host(inp)
     runner = Runner()
     if inp.get('mode') == 'host':
@@ -2157,7 +2373,8 @@ LEVEL_NOTE = ('Proof level holds for the parsed program on the machine model. As
               'Host side (no model of host objects / globals / histories in Lean: implementation-side oracle, the model compared on the same lines): '
               'diff-globals (host globals named like every name the working tree\'s diff.bare uses, every value type, set by the host / an earlier '
               'script / the CLI multi-script mode / the caller), diff-history (fault-then-continue histories on one re-used options + globals '
-              'object), diff-boundary (str / list / dict / int subclasses and str-enum members as inputs and options, the function reached by a script, '
+              'object), diff-runs (2-4 whole runs that each include the library and call it, the options and the globals of every run being the '
+              'object of an earlier run, a copy of it or new - every combination, with and without a failing run in between), diff-boundary (str / list / dict / int subclasses and str-enum members as inputs and options, the function reached by a script, '
               'directly, through evaluate_expression; a fresh interpreter process) and diff-prior-use (the caller used every library function on the '
               'same values before and edited what it got, the results and the input arrays in place). '
               'If diff.bare changes so that its parsed model differs, BareProofs.C20Prog no longer compiles and these streams + the search are what '
